@@ -296,7 +296,13 @@ theorem pt_polygon_minimal_convex (poly : List Vec) (C : ConvexPoly poly) (p : V
     · rw [ecp]
       exact edge_in_region poly C g hg t t0 t1
 
--- the unit square is a convex polygon in this sense; distance from a point beside and above it
+-- the unit square and a tilted pentagon (plane x + y + z = 3) are convex polygons in this sense
+example : ConvexPoly [[0, 0, 0], [1, 0, 0], [1, 1, 0], [0, 1, 0]] :=
+  ⟨by decide +kernel, by decide +kernel, by decide +kernel, by decide +kernel, by decide +kernel,
+   by decide +kernel, by decide +kernel⟩
+example : ConvexPoly [[3, 0, 0], [2, 2, -1], [0, 3, 0], [-1, 2, 2], [1, -1, 3]] :=
+  ⟨by decide +kernel, by decide +kernel, by decide +kernel, by decide +kernel, by decide +kernel,
+   by decide +kernel, by decide +kernel⟩
 example : (ptPoly [3, 1 / 2, 4] [[0, 0, 0], [1, 0, 0], [1, 1, 0], [0, 1, 0]]).d2 = 20 := by decide +kernel
 
 /-! ### segment – polygon (CORE) -/
@@ -357,34 +363,31 @@ theorem seg_poly_general_min (tolP tolS : Rat) (s e : Vec) (poly : List Vec)
       · rw [h] at hb; simp at hb
       · exact h
   rw [hg]
-  unfold segPolyGeneral
-  simp only []
-  cases hm : minSegSeg tolS s e (edges poly) with
-  | none =>
-    have he : edges poly = [] := by
-      cases hE : edges poly with
-      | nil => rfl
-      | cons g gs =>
-        rw [hE] at hm
-        unfold minSegSeg at hm
-        simp only [] at hm
-        cases h' : minSegSeg tolS s e gs <;> rw [h'] at hm <;> simp at hm
-        split at hm <;> simp at hm
-    simp only []
-    rw [he]
-    split_ifs with hlt
-    · exact ⟨hlt.le, le_refl _, fun g hg => by simp at hg, Or.inr (Or.inl rfl)⟩
-    · exact ⟨le_refl _, not_lt.mp hlt, fun g hg => by simp at hg, Or.inl rfl⟩
-  | some o =>
-    obtain ⟨m1, g, hg, m2⟩ := minSegSeg_spec _ _ _ _ _ hm
-    simp only []
-    split_ifs with hlt h2 h2
-    · exact ⟨by simp only [] at h2 ⊢; linarith, by simp only [] at h2 ⊢; exact h2.le, fun g' hg' => m1 g' hg',
-        Or.inr (Or.inr ⟨g, hg, by rw [m2]⟩)⟩
-    · exact ⟨hlt.le, le_refl _, fun g' hg' => le_trans (not_lt.mp h2) (m1 g' hg'), Or.inr (Or.inl rfl)⟩
-    · exact ⟨by simp only [] at h2 ⊢; exact h2.le, by simp only [] at h2 ⊢; linarith [not_lt.mp hlt],
-        fun g' hg' => m1 g' hg', Or.inr (Or.inr ⟨g, hg, by rw [m2]⟩)⟩
-    · exact ⟨le_refl _, not_lt.mp hlt, fun g' hg' => le_trans (not_lt.mp h2) (m1 g' hg'), Or.inl rfl⟩
+  exact segPolyGeneral_spec tolS s e poly
+
+/-- `segments_polygon` on a convex planar polygon returns the true distance: no pair (point of the segment, point
+    of the polygon) is closer than the returned distance.  Hypotheses (decidable, satisfied by every generated
+    case): the segment–segment kernel is in its exact regime against every boundary segment (for integer data see
+    `seg_seg_minimal_int`), and the incline of the segment over the polygon's plane is exactly zero or above the
+    tolerance argument (`|dz| > tol`), i.e. not inside the tolerance band of `non_zero_incline`.
+    Attainment: by `seg_poly_cross_sound` / `seg_poly_general_min` the value is 0 at a common point or equals one of
+    the end-point / segment–edge distances, which are attained (`pt_polygon_minimal_convex`, `seg_seg_closest_on_segs`). -/
+theorem seg_poly_minimal_convex (poly : List Vec) (C : ConvexPoly poly) (tolP tolS : Rat) (htol : 0 < tolS) (s e : Vec)
+    (hs : s.length = 3) (he : e.length = 3)
+    (hss : ∀ g ∈ edges poly, (segSeg tolS s e g.1 g.2).exact = true)
+    (hinc : dot (vsub e (centroid poly)) (normal poly) - dot (vsub s (centroid poly)) (normal poly) = 0 ∨
+      tolP * tolP * nsq (normal poly) <
+        (dot (vsub e (centroid poly)) (normal poly) - dot (vsub s (centroid poly)) (normal poly)) *
+        (dot (vsub e (centroid poly)) (normal poly) - dot (vsub s (centroid poly)) (normal poly)))
+    (mu : Rat) (mu0 : 0 ≤ mu) (mu1 : mu ≤ 1) (x : Vec) (hx : InRegion poly x) :
+    (segPoly tolP tolS s e poly).d2 ≤ nsq (vsub (along s e mu) x) :=
+  segPoly_min_convex poly C tolP tolS htol s e hs he hss hinc mu mu0 mu1 x hx
+
+-- the hypotheses hold e.g. for a segment passing beside the unit square at an incline
+example : (∀ g ∈ edges [[0, 0, 0], [1, 0, 0], [1, 1, 0], [0, 1, 0]],
+      (segSeg (1 / 100000000) [2, 1 / 2, 1] [3, 1 / 2, -1] g.1 g.2).exact = true) ∧
+    (segPoly (1 / 100000) (1 / 100000000) [2, 1 / 2, 1] [3, 1 / 2, -1] [[0, 0, 0], [1, 0, 0], [1, 1, 0], [0, 1, 0]]).d2 = 9 / 5 := by
+  decide +kernel
 
 -- a segment through the unit square, one parallel above it, one beside it
 example : (segPoly (1 / 100000) (1 / 100000000) [1 / 2, 1 / 2, -1] [1 / 2, 1 / 2, 1]
